@@ -7336,6 +7336,11 @@ fn eval_block(env: &mut Env, expr_value_is_used: bool, block: &Block) {
 }
 
 fn eval_break(env: &mut Env, expr_value_is_used: bool) {
+    // Whether the value of the loop we're leaving is used. This is a
+    // property of the loop expression, not of the `break`. (Outside
+    // any loop, fall back to the `break` expression itself.)
+    let mut loop_value_is_used = expr_value_is_used;
+
     // Pop all the currently evaluating expressions until we are no
     // longer inside the innermost loop.
     while let Some((expr_state, expr)) = env.current_frame_mut().exprs_to_eval.pop() {
@@ -7356,6 +7361,7 @@ fn eval_break(env: &mut Env, expr_value_is_used: bool) {
                 // block won't be popped by the DoneRunBlock step.
                 env.current_frame_mut().bindings.pop_block();
 
+                loop_value_is_used = expr.value_is_used;
                 env.current_frame_mut()
                     .exprs_to_eval
                     .push((ExpressionState::EvaluatedSubexpressions, Rc::clone(&expr)));
@@ -7371,6 +7377,7 @@ fn eval_break(env: &mut Env, expr_value_is_used: bool) {
                 env.pop_value()
                     .expect("Index used by `for` should be present");
 
+                loop_value_is_used = expr.value_is_used;
                 env.current_frame_mut()
                     .exprs_to_eval
                     .push((ExpressionState::EvaluatedSubexpressions, Rc::clone(&expr)));
@@ -7392,7 +7399,7 @@ fn eval_break(env: &mut Env, expr_value_is_used: bool) {
     }
 
     // Loops always evaluate to unit.
-    if expr_value_is_used {
+    if loop_value_is_used {
         env.push_value(Value::unit());
     }
 }
